@@ -411,3 +411,20 @@ package stdlib
 //@   tags C13
 //@   panics (not (ty_eq (vs_ety s1) (vs_ety s2)))
 //@   ensures[C13] op: (and (= (vs_abs result) (vs_symdiff (vs_abs s1) (vs_abs s2))) (= (vs_ety result) (vs_ety s1)))
+//
+// chunklist(list, size): the parts decided before the element loop - failure exactly for a size that is not
+// a whole number fitting an int or is negative; an empty list gives the empty list of lists whatever the
+// size; size 0 gives the one-element list holding the whole list. The chunking loop itself is not under
+// contract (element iterators are not), so the function is verified without a no-panic claim.
+//@ func stdlib.ChunklistFunc.Impl
+//@   tags C13
+//@   may_panic
+//@   spec_args stdlib.ChunklistFunc
+//@   let c (unmark (val_at args 0))
+//@   let k (unmark (val_at args 1))
+//@   let sz (bf.int64 (bf_of k))
+//@   let n (len_int c)
+//@   let r (unmark result.0)
+//@   ensures[C13] fails: (= (not (= result.1 nil.Any)) (or (not (= (bf.acc64 (bf_of k)) 0)) (< sz 0)))
+//@   ensures[C13] empty: (=> (and (= result.1 nil.Any) (= n 0)) (and (= (vty r) (ty_list (vty c))) (kn r) (is_seq_payload r) (= (Slice.len (pl_seq r)) 0)))
+//@   ensures[C13] whole: (=> (and (= result.1 nil.Any) (> n 0) (= sz 0)) (and (is_list_ty (vty r)) (kn r) (is_seq_payload r) (= (Slice.len (pl_seq r)) 1) (= (pl_seq_at r 0) (cty.Value.v c)) (= (elem_ty (vty r)) (vty c))))
